@@ -537,9 +537,18 @@ impl History {
             self.records.push(
                 Record::new("C03", "panic", format!("router step panicked at {}: {} (while handling {what})", p.location, p.message))
                     .fact("site", site)
-                    .fact("event", what)
-                    .fact("id_state", last_id_state),
+                    .fact("event", what.clone())
+                    .fact("id_state", last_id_state.clone()),
             );
+            // a router panic takes the broker away from everybody, the well-behaved pair included
+            let guarded_up = self.actors.iter().any(|a| a.guarded && a.link.map(|l| self.model.is_live(l)).unwrap_or(false));
+            if guarded_up {
+                self.records.push(
+                    Record::new("C14", "broker-lost", format!("the router panicked at {}: {} (while handling {what}) with the well-behaved pair connected", p.location, p.message))
+                        .fact("site", panic_site(&p))
+                        .fact("id_state", last_id_state),
+                );
+            }
             return;
         }
         // answers to connects
@@ -1519,18 +1528,21 @@ impl History {
     pub fn run_random(&mut self) {
         // everybody connects first (most histories), then the random walk
         let n = self.actors.len();
+        let ops = self.rng.range(self.profile.ops.0, self.profile.ops.1);
+        self.ops_total = ops;
+        // in some histories the well-behaved subscriber arrives late: by then slots have been recycled and it may
+        // inherit one (with whatever the previous owner left behind in the router)
+        let late_s = if self.profile.guarded_pair && self.rng.chance(2, 5) { Some(self.rng.range(ops / 5, ops / 2 + 1)) } else { None };
         for a in 0..n {
-            if self.actors[a].guarded || self.rng.chance(4, 5) {
+            if (self.actors[a].guarded && !(a == 1 && late_s.is_some())) || (!self.actors[a].guarded && self.rng.chance(4, 5)) {
                 self.connect(a, None);
             }
         }
         self.step(Step::Turn);
-        if self.profile.guarded_pair {
+        if self.profile.guarded_pair && late_s.is_none() {
             self.subscribe(1, &[("a/#".to_owned(), 1)], true);
             self.step(Step::Turn);
         }
-        let ops = self.rng.range(self.profile.ops.0, self.profile.ops.1);
-        self.ops_total = ops;
         let mut reconnect_at = None;
         for i in 0..ops {
             if self.done() {
@@ -1548,6 +1560,13 @@ impl History {
                         self.connect(0, Some(false));
                     }
                 }
+            }
+            if late_s == Some(i) {
+                self.corner("guarded-subscriber-arrives-late");
+                self.connect(1, None);
+                self.step(Step::Turn);
+                self.subscribe(1, &[("a/#".to_owned(), 1)], true);
+                self.step(Step::Turn);
             }
             self.random_action();
             if self.profile.guarded_pair && i % 7 == 0 {
